@@ -65,18 +65,19 @@ VARIANTS = {
 }
 
 
-def cargo_build(variant, want_json=False):
+def cargo_build(variant, want_json=False, nightly=False):
     """Build the harness variant against /repo's current working tree. Returns the binary path
     (and, with want_json, the list of compiler artifacts)."""
     rel, dbgfeat = VARIANTS[variant]
-    cmd = ["cargo", "build", "--offline", "--manifest-path", os.path.join(HARNESS, "Cargo.toml")]
+    cmd = ["cargo"] + (["+nightly"] if nightly else []) + ["build", "--offline", "--manifest-path", os.path.join(HARNESS, "Cargo.toml")]
     if rel:
         cmd.append("--release")
     if dbgfeat:
         cmd += ["--features", "konst_debug"]
     if want_json:
         cmd += ["--message-format=json"]
-    tdir = os.path.join(TARGET, "h")
+    # rlibs are only usable by the rustc that produced them: nightly builds get their own target dir
+    tdir = os.path.join(TARGET, "hn" if nightly else "h")
     rc, out, err = sh(cmd, env={"CARGO_TARGET_DIR": tdir}, timeout=1800)
     if rc != 0:
         raise Inconclusive("harness variant %s does not build against the current tree: %s" % (variant, (err or out)[-1500:].replace("\n", " | ")))
@@ -100,10 +101,10 @@ def build_all(variants):
     return {v: cargo_build(v) for v in variants}
 
 
-def konst_rlibs(variant="dbg"):
+def konst_rlibs(variant="dbg", nightly=False):
     """(path of libkonst rlib, deps dir) as built for the harness variant - generated programs are
     compiled directly against them with rustc (DESIGN.md §2/E4)."""
-    _, arts = cargo_build(variant, want_json=True)
+    _, arts = cargo_build(variant, want_json=True, nightly=nightly)
     konst = None
     for a in arts:
         if a.get("target", {}).get("name") == "konst" and "lib" in a.get("target", {}).get("kind", []):
@@ -212,12 +213,14 @@ def run_miri(sub, tier, seed, shard, tree_borrows=False, timeout=3600, raw_drops
         raise Inconclusive("watchdog: miri shard %s did not finish within %ds" % (tag, timeout))
     ub = MIRI_UB_RE.findall(err or "")
     if ub:
-        # keep the message and the first in-repo frame
-        frames = re.findall(r"(/repo/[^\s:]+:\d+)", err or "")
+        # keep the message and the first in-repo frame *of the report* (build warnings precede it)
+        tail = (err or "")[(err or "").find("error: Undefined Behavior"):]
+        frames = re.findall(r"(/repo/[^\s:]+:\d+)", tail)
         res["ub"] = [{"message": ub[0], "frame": frames[0] if frames else "", "stderr_tail": (err or "")[-1500:]}]
         return res
     if "memory leaked" in (err or ""):
-        frames = re.findall(r"(/repo/[^\s:]+:\d+)", err or "")
+        tail = (err or "")[(err or "").find("memory leaked"):]
+        frames = re.findall(r"(/repo/[^\s:]+:\d+)", tail)
         res["ub"] = [{"message": "memory leaked (Miri leak checker)", "frame": frames[0] if frames else "", "stderr_tail": (err or "")[-1500:]}]
         return res
     if rc == 0 and os.path.exists(outp):
@@ -229,6 +232,47 @@ def run_miri(sub, tier, seed, shard, tree_borrows=False, timeout=3600, raw_drops
         raise Inconclusive("harness does not build under Miri against the current tree: %s" % (err or "")[-800:].replace("\n", " | "))
     # abnormal termination inside the interpreter without a UB report (e.g. abort after a double panic)
     res["ub"] = [{"message": "interpreted program terminated abnormally (rc=%s) without finishing the workload" % rc, "frame": "", "stderr_tail": (err or "")[-1500:], "abnormal": True}]
+    return res
+
+
+# --------------------------------------------------------------------------- valgrind memcheck (E6)
+
+
+def run_valgrind(binp, sub, tier, seed, shard=None, leak_check=True, timeout=7200):
+    """The release harness under memcheck with the ledger's double-free protection off
+    (KV_RAW_DROPS), single-threaded. Returns dict(engine, json or None, errors: [..]).
+    Tool problems (valgrind missing, watchdog) are Inconclusive, never violations."""
+    if shutil.which("valgrind") is None:
+        raise Inconclusive("valgrind is not installed")
+    os.makedirs(WORK, exist_ok=True)
+    tag = "%s-vg-%s%s" % (sub, tier, ("-%d_%d" % shard) if shard else "")
+    outp = os.path.join(WORK, "v-%s-%d.json" % (tag, os.getpid()))
+    if os.path.exists(outp):
+        os.remove(outp)
+    cmd = ["valgrind", "--error-exitcode=97", "-q", "--num-callers=12"]
+    cmd += ["--leak-check=full", "--errors-for-leak-kinds=definite"] if leak_check else ["--leak-check=no"]
+    cmd += [binp, sub, "--tier", tier, "--seed", str(seed), "--threads", "1", "--out", outp]
+    if shard:
+        cmd += ["--shard", "%d/%d" % shard]
+    rc, out, err = sh(cmd, timeout=timeout, env={"KV_RAW_DROPS": "1"})
+    res = {"engine": "valgrind-memcheck", "sub": sub, "cmd": "KV_RAW_DROPS=1 " + " ".join(cmd), "errors": [], "json": None}
+    if rc is None:
+        raise Inconclusive("watchdog: valgrind run %s did not finish within %ds" % (tag, timeout))
+    if os.path.exists(outp):
+        with open(outp) as f:
+            res["json"] = json.load(f)
+        os.remove(outp)
+    reports = re.findall(r"==\d+== (Invalid (?:read|write|free)[^\n]*|Mismatched free[^\n]*|Conditional jump or move depends on uninitialised[^\n]*|Use of uninitialised value[^\n]*|[\d,]+ bytes in [\d,]+ blocks are definitely lost[^\n]*|Process terminating with[^\n]*)", err or "")
+    if rc == 97 or reports:
+        frames = re.findall(r"\((\S+\.rs:\d+)\)", err or "")
+        repo_frames = [f for f in frames if not f.startswith(("c15.rs", "c11.rs", "common.rs", "ledger.rs", "main.rs"))]
+        res["errors"] = [{"message": (reports[0] if reports else "memcheck reported errors"), "frame": (repo_frames[0] if repo_frames else (frames[0] if frames else "")), "stderr_tail": (err or "")[-2500:]}]
+        return res
+    if rc != 0 and res["json"] is None:
+        if rc < 0:
+            res["errors"] = [{"message": "process under memcheck killed by signal %d" % -rc, "frame": "", "stderr_tail": (err or "")[-1500:]}]
+            return res
+        raise Inconclusive("valgrind run %s exited with %s: %s" % (tag, rc, (err or "")[-400:].replace("\n", " | ")))
     return res
 
 
